@@ -9,13 +9,13 @@ TECHNIQUE = "runtime monitoring on a virtual-time simulated network: bursts of C
 LEVEL_TEXT = "Each generated burst (2-8 messages, 1-3 endpoints, every reaction kind at several delays) is run against the real MessageManager; predicted first-transmission instants, exchange intervals, FIFO order and completion of every request are compared with the recorded history."
 LEVEL_NOTE = "Trusted: harness/simnet.py wire log and virtual clock, the queue model in checks/c14.py. Submission order is recorded at the MessageManager.send_message boundary (instance wrapper installed from the harness). Peers never answer with a separate response while the exchange is still unacknowledged."
 RULE = (
-    "one case = one burst: messages (submit offset, endpoint, CON/NON, reaction in {piggyback, empty ACK + separate response, ACK with a foreign response + separate response, Reset, synchronous send failure at the first retransmission, silence, ICMP error} with delay class). "
+    "one case = one burst: messages (submit offset, endpoint, CON/NON, reaction in {piggyback, empty ACK + separate response, ACK with a foreign response + separate response, Reset, synchronous send failure at the first retransmission, synchronous refusal of the message's very first transmission (also when its turn comes out of the backlog), a message that cannot be serialised, silence, ICMP error} with delay class). "
     "Non-trivial = at least one message was held back behind another exchange; distinct = distinct tuples of (endpoint, type, reaction, delay class, offset class)"
 )
 ASSUMPTIONS = ["default TransportTuning (MAX_RETRANSMIT 4) for all requests", "one-way latency 1 ms"]
-REQUIRED_MONITORS = {"first_tx_time": 300, "no_overlap": 300, "fifo": 100, "held_back_failed_with_head": 20, "non_not_delayed": 50, "other_endpoint_not_delayed": 50, "all_completed": 100, "backlog_invariant": 200}
+REQUIRED_MONITORS = {"first_tx_time": 300, "no_overlap": 300, "fifo": 100, "held_back_failed_with_head": 20, "non_not_delayed": 50, "other_endpoint_not_delayed": 50, "all_completed": 100, "backlog_invariant": 200, "unserialisable": 30, "unserialisable_in_queue": 10, "refused_first_in_queue": 10}
 
-REACTIONS = ["piggy", "empty+sep", "foreign-ack+sep", "rst", "silent", "icmp", "unreach-at-retx"]
+REACTIONS = ["piggy", "empty+sep", "foreign-ack+sep", "rst", "silent", "icmp", "unreach-at-retx", "refused-first", "unserialisable"]
 DELAYS = {"now": 0.0, "short": 0.3, "after-retx": 3.5}
 OFFSETS = [0.0, 0.0, 0.0, 0.0, 0.01, 1.0, 5.0, 120.0]  # 120 s: after an unanswered exchange ahead has timed out
 
@@ -34,9 +34,9 @@ def gen_burst(r):
     for i in range(n):
         t += r.choice(OFFSETS)
         typ = "CON" if r.random() < 0.8 else "NON"
-        reaction = r.choice(REACTIONS if typ == "CON" else ["piggy", "silent"])
+        reaction = r.choice(REACTIONS if typ == "CON" else ["piggy", "silent", "refused-first"])
         # keep silence / icmp rarer: they end everything queued behind them
-        if reaction in ("silent", "icmp", "unreach-at-retx") and r.random() < 0.5:
+        if reaction in ("silent", "icmp", "unreach-at-retx", "refused-first") and r.random() < 0.5:
             reaction = "piggy"
         msgs.append({"i": i, "t": t, "ep": r.randrange(neps), "type": typ, "reaction": reaction, "delay": r.choice(list(DELAYS))})
     return neps, msgs
@@ -97,6 +97,18 @@ def run_burst(neps, msgs, seed, rep, case):
                 loop.call_later(0.5, off)
                 loop.call_later(3.4, on)
 
+        def refuse(src, dst, data):
+            # the operating system refuses this one datagram in the send call (EMSGSIZE and the like)
+            try:
+                m = rc.parse(data)
+                path = rc.opt1(m, 11)
+                if rc.is_request(m.code) and path is not None and msgs[int(path.decode()[1:])]["reaction"] == "refused-first":
+                    return 90
+            except Exception:
+                pass
+            return None
+
+        net.refuse.append(refuse)
         peers = [simnet.RawPeer(net, ip, port, on_msg) for ip, port in EPS]
         cli = await simnet.make_context(net, "10.0.0.2", 40001, None, server=False)
         # boundary recorder: submission order at MessageManager.send_message
@@ -133,6 +145,10 @@ def run_burst(neps, msgs, seed, rep, case):
                 t_now = spec["t"]
             ip, port = EPS[spec["ep"]]
             m = aiocoap.Message(code=aiocoap.GET, uri="coap://%s:%d/k%d" % (ip, port, spec["i"]), transport_tuning=aiocoap.Reliable() if spec["type"] == "CON" else aiocoap.Unreliable())
+            if spec["reaction"] == "unserialisable":
+                # an application mistake that only shows when the message is serialised, which for a held-back
+                # message is long after it was handed in
+                m.payload = "text, not bytes"
             r_ = cli.request(m, handle_blockwise=False)
             rec = {"spec": spec, "t_call": loop.time(), "done": None}
             r_.response.add_done_callback(lambda f, rec=rec: rec.update(done=(loop.time(), f.exception() if not f.cancelled() else "cancelled", bytes(f.result().payload) if not f.cancelled() and f.exception() is None else None)))
@@ -157,6 +173,10 @@ def judge(box, msgs, res, rep, case):
     from aiocoap import error
 
     net, C, subs, reqs, EPS = box["net"], box["C"], box["submissions"], box["reqs"], box["EPS"]
+    for rq in reqs:
+        # ended only by the harness shutting the context down at the end of the run: never completed
+        if rq["done"] is not None and isinstance(rq["done"][1], error.LibraryShutdown):
+            rq["done"] = None
     wit = lambda **kw: dict(msgs=repr(msgs), submissions=[(s["seq"], round(s["t"], 6), s.get("mid"), s.get("mtype"), s.get("remote"), s.get("path")) for s in subs], wire=net.dump(80), **kw)
     # map submission -> spec via path
     for s in subs:
@@ -219,7 +239,22 @@ def judge(box, msgs, res, rep, case):
             predicted = max(ts, free_at)
             if predicted > ts + 1e-12:
                 held_back += 1
+            if s["spec"]["reaction"] == "unserialisable":
+                # never reaches the wire: in the instant its turn comes its request fails (with whatever the
+                # serialiser raised), and the endpoint is as free as before
+                rep.monitor("unserialisable_in_queue", 1 if predicted > ts + 1e-12 else 0)
+                rep.monitor("unserialisable")
+                d = done_by_i.get(i)
+                if o is not None:
+                    rep.violation("unserialisable-transmitted", "a message that cannot be serialised appeared on the wire", wit(submission=s["seq"]), case)
+                elif d is None:
+                    rep.violation("held-back-forgotten/unserialisable", "a held-back message that could not be serialised when its turn came was dropped without its request being failed", wit(submission=s["seq"], predicted=predicted), case)
+                elif d[1] is None or abs(d[0] - predicted) > 1e-6:
+                    rep.violation("unserialisable-wrong-failure", "the request of a message that cannot be serialised did not fail in the instant its turn came", wit(submission=s["seq"], done=repr(d), predicted=predicted), case)
+                continue
             rep.monitor("first_tx_time")
+            if s["spec"]["reaction"] == "refused-first" and predicted > ts + 1e-12:
+                rep.monitor("refused_first_in_queue")
             if o is None:
                 rep.violation("never-transmitted", "a confirmable message was never transmitted although nothing ahead of it failed", wit(submission=s["seq"], predicted=predicted), case)
                 return
@@ -278,7 +313,7 @@ def judge(box, msgs, res, rep, case):
             continue
         if rq["done"] is None:
             rep.violation("request-never-completed", "a request neither completed nor failed by the end of the run", wit(spec=spec), case)
-        elif rq["done"][1] is not None and not isinstance(rq["done"][1], error.Error):
+        elif rq["done"][1] is not None and not isinstance(rq["done"][1], error.Error) and spec["reaction"] != "unserialisable":
             rep.violation("request-failed-with-non-library-error", "a request failed with an exception outside the library's error hierarchy", wit(spec=spec, exc=repr(rq["done"][1])), case)
     inv = box["inv"]
     rep.monitor("backlog_invariant", inv["n"])
